@@ -54,6 +54,9 @@ def data_item(sim, fe, it, r, idx):
     wire = net.data_wire(name, content=b'payload%d' % idx, sig={'none': None, 'digest': 'digest', 'bad': 'baddigest'}[dsig],
                          freshness=1000)
     supplied = it['validator'] == 'supplied'
+    if it.get('by_digest'):
+        # the Interest names exactly this Data packet (trailing ImplicitSha256Digest): the validator still decides
+        name = name + [T.enc_tlv(1, hashlib.sha256(wire).digest())]
     if fe == 'v2' and not supplied:
         h = sim.express(name, lifetime=LIFE, validator='none')
         if not isinstance(h.express_error, ValueError):
@@ -100,7 +103,7 @@ def data_item(sim, fe, it, r, idx):
         if label == 'ValidationFailure':
             vf = out[2]['vf']
             try:
-                ok = ([bytes(c) for c in vf.name] == name and bytes(vf.content) == b'payload%d' % idx
+                ok = ([bytes(c) for c in vf.name] == name[:2] and bytes(vf.content) == b'payload%d' % idx
                       and vf.meta_info is not None and vf.meta_info.freshness_period == 1000
                       and vf.sig_ptrs is not None)
                 if dsig != 'none':
@@ -119,7 +122,7 @@ def data_item(sim, fe, it, r, idx):
         if label != want:
             r.bad(f'C05/legacy/data/default-validator/{label}/expected={want}', f'dsig={dsig}')
     nontriv = (not supplied) or it['verdict'] not in ('PASS', 'FAIL', True, False) or it['lat'] in ('life', 'life+20')
-    return (fe, 'data', repr(it['verdict']), it['lat'], dsig, it['validator'], bool(it.get('await_later'))) if nontriv else ()
+    return (fe, 'data', repr(it['verdict']), it['lat'], dsig, it['validator'], bool(it.get('await_later')), bool(it.get('by_digest'))) if nontriv else ()
 
 
 # ---- Interest side ------------------------------------------------------------------------------------------------
@@ -133,7 +136,7 @@ def _build_interest(name, it):
         return net.interest_wire(name, nonce=9, lifetime=4000)
     w = net.interest_wire(name, nonce=9, lifetime=4000, app_param=app, sig_info=sig_info,
                           sig_value=(b'\x00' * 32 if it.get('sigbad') else None),
-                          bad_digest=(dg == 'digest-flipped'), no_digest=(dg == 'missing'))
+                          bad_digest=(dg == 'digest-flipped'), no_digest=(dg == 'missing'), omit_sig_value=bool(it.get('no_sig_value')))
     if dg == 'param-flipped':
         # flip one byte inside ApplicationParameters / SignatureInfo region (after the digest was computed)
         target = (b'params' if app else None) or sig_info
@@ -290,7 +293,7 @@ def interest_item(sim, fe, it, r, idx):
     if verdict == 'RAISE_TIMEOUT':
         sim.vl.collect_errors()       # the validator's own exception ending its task is not this check's business
     nontriv = needs and (dg != 'correct' or rv == 'absent' or isinstance(rv, list) or rv not in ('PASS', 'FAIL', True, False))
-    return (fe, 'interest', kind, dg, repr(rv), repr(app_v), sigtype, bool(it.get('sigbad')), bool(it.get('refused_dup')), bool(it.get('appv_late')), bool(it.get('attach_during'))) if nontriv else ()
+    return (fe, 'interest', kind, dg, repr(rv), repr(app_v), sigtype, bool(it.get('sigbad')), bool(it.get('refused_dup')), bool(it.get('appv_late')), bool(it.get('attach_during')), bool(it.get('no_sig_value'))) if nontriv else ()
 
 
 def pair_item(sim, fe, it, r, idx):
@@ -356,6 +359,7 @@ def _grid_items(fe):
     for v, lat in itertools.product(verdicts, LATS):
         # the application expresses, does something else for 30 ms (< lifetime), and only then awaits the result
         yield {'side': 'data', 'validator': 'supplied', 'verdict': v, 'lat': lat, 'dsig': 'digest', 'await_later': True}
+        yield {'side': 'data', 'validator': 'supplied', 'verdict': v, 'lat': lat, 'dsig': 'digest', 'by_digest': True}
     for dsig in ['none', 'digest', 'bad']:
         yield {'side': 'data', 'validator': 'none', 'verdict': None, 'lat': '0', 'dsig': dsig}
     for v1, v2 in itertools.product(verdicts, verdicts):
@@ -381,6 +385,12 @@ def _grid_items(fe):
                     yield dict(base, refused_dup=True)
                     for sigtype, sigbad in [(0, False), (0, True)]:
                         yield dict(base, reattach=True, sigtype=sigtype, sigbad=sigbad)
+            if kind in ('params+sig', 'sig') and dg == 'correct' and rv in ('absent', verdicts[0], 'PASS', True) \
+                    and not (fe == 'legacy' and rv == 'absent'):
+                # InterestSignatureInfo present but NO InterestSignatureValue element: it still claims a signature, so it goes
+                # through validation like any signed Interest (a validator cannot accept a signature that is not there, but
+                # that is the validator's call)
+                yield dict(base, no_sig_value=True)
             if fe == 'v2' or kind in ('plain', 'params') or rv != 'absent':
                 yield base
             else:
